@@ -2,6 +2,8 @@
 mod allocsc;
 mod c09;
 mod c14;
+mod c19;
+mod c20;
 mod crash;
 mod enumchk;
 mod extra;
